@@ -6,7 +6,7 @@
    the pending handlers to the FIFO with operation_aborted and empty the slots. *)
 From Coq Require Import List ZArith Lia Bool.
 From RecordUpdate Require Import RecordSet.
-From Sim Require Import Map Variant Current Kernel Queue Net Pcap SimState Sim SockProofs KernelInv KernelTrace KernelFifo KernelTimers.
+From Sim Require Import Map Variant Current Kernel Queue Net Pcap HttpParse SimState Sim Apps Script SockProofs KernelInv KernelTrace KernelFifo KernelTimers.
 Import ListNotations.
 Local Open Scope Z_scope.
 
@@ -58,3 +58,24 @@ Theorem C04_timer_waits_complete_at_most_once :
       + pend task W logev s i.
 Proof. intros. exact (AInv_session task W logev exec v fuel pfuel w cs i). Qed.
 Print Assumptions C04_timer_waits_complete_at_most_once.
+
+(* a resolver that is destroyed completes every lookup still queued, once, with operation_aborted *)
+Theorem C04_destroying_a_resolver_aborts_its_queued_lookups :
+  forall v now r w, d5_resolver_dtor v = true ->
+  exists w', do_uop v now (URslvDestroy r) w =
+    (w', map (fun l => KPost (TUser (l_h l) (lookup_args l EC_ABORTED))) (r_queue (get_rslv w r)) ++ [KDestroy (tid_rslv r)]) /\
+    r_queue (get_rslv w' r) = [].
+Proof.
+  intros v now r w D. unfold do_uop. rewrite D.
+  pose proof (rslv_cancel_spec r w) as S.
+  destruct (rslv_cancel r w) as [w' cs]. destruct S as [S1 S2]. subst cs.
+  exists w'. split; [reflexivity|exact S1].
+Qed.
+Print Assumptions C04_destroying_a_resolver_aborts_its_queued_lookups.
+
+(* before the repair they were dropped *)
+Theorem C04_refuted_before_repair_resolver_destruction_discards :
+  forall v now r w, d5_resolver_dtor v = false ->
+  snd (do_uop v now (URslvDestroy r) w) = [KDestroy (tid_rslv r)].
+Proof. intros v now r w D. unfold do_uop. rewrite D. reflexivity. Qed.
+Print Assumptions C04_refuted_before_repair_resolver_destruction_discards.
